@@ -684,6 +684,61 @@ def r4_10(ctx):
     ctx.floor(rid, n, 72, "trivial-constraint states interpreted")
 
 
+R411_EXC = {
+    ("BD_Shape", "BD_Shape<T>"): "copy / converting constructor: the matrix is copied together with the status word",
+    ("Octagonal_Shape", "Octagonal_Shape<T>"): "copy / converting constructor: the matrix is copied together with the status word",
+    ("BD_Shape", "operator="): "whole-object assignment: matrix and status travel together",
+    ("Octagonal_Shape", "operator="): "whole-object assignment: matrix and status travel together",
+    ("BD_Shape", "m_swap"): "whole-object swap: matrix and status travel together",
+    ("Octagonal_Shape", "m_swap"): "whole-object swap: matrix and status travel together",
+    ("BD_Shape", "get_limiting_shape"): "the operand is the output parameter being filled",
+    ("Octagonal_Shape", "get_limiting_octagon"): "the operand is the output parameter being filled",
+    ("BD_Shape", "BHMZ05_widening_assign"): "reached only when the affine dimensions of x and y agree, computed after both were closed and with the empty cases filtered by the early returns above",
+    ("Octagonal_Shape", "BHMZ05_widening_assign"): "as for BD_Shape::BHMZ05_widening_assign",
+    ("BD_Shape", "simplify_using_context_assign"): "y was closed and `x.contains(y)` was false on this path: an empty y is contained in everything",
+}
+
+
+def r4_11(ctx, fx):
+    import re
+    from pplv import flow
+    rid = "R4.11"
+    ctx.rule(rid, "the matrix of an operand is meaningless while the operand is marked empty: a BD_Shape / Octagonal_Shape that is marked empty keeps whatever its matrix last held (BD_Shape(n, EMPTY) holds the matrix of the universe). A member that takes another shape `y` reads `y.dbm` / `y.matrix` only on paths that passed the false edge of `y.marked_empty()` or `y.is_empty()`; whole-object copies, output parameters and two semantic guards are tabled with their reasons")
+    n = 0
+    seen = set()
+    for f in fx.functions:
+        if f.clsn not in ("BD_Shape", "Octagonal_Shape") or not f.cfg or not f.flag("pattern"):
+            continue
+        if (f.relfile, f.line) in seen:
+            continue
+        seen.add((f.relfile, f.line))
+        for q in f.params:
+            y = q["n"]
+            if not y or not re.search(r"\b(BD_Shape|Octagonal_Shape)\b", q["t"]):
+                continue
+            reads = [x for x in f.walk() if x["k"] == "member" and x.get("n") in ("dbm", "matrix") and f.text(x).replace(" ", "").startswith(y + ".")]
+            if not reads:
+                continue
+            n += 1
+            inst = "%s::%s reads the matrix of `%s`" % (f.clsn, f.name, y)
+
+            def edge(cond, taken, y=y):
+                return taken is False and f.text(cond).replace(" ", "") in (y + ".marked_empty()", y + ".is_empty()")
+            bad = None
+            for r in reads:
+                bad = flow.must_precede(f, r, lambda nod: False, edge_satisfied=edge)
+                if bad is not None:
+                    badr = r
+                    break
+            if bad is None:
+                ctx.ok(rid, inst, f.where())
+            elif (f.clsn, f.name) in R411_EXC:
+                ctx.excepted(rid, inst, f.where(badr), R411_EXC[(f.clsn, f.name)])
+            else:
+                ctx.violation(rid, inst, f.where(badr), "`%s` (line %s) is reached without a test of `%s.marked_empty()` having failed (%s): for an operand marked empty the matrix is read as if it described a non-empty shape" % (f.text(badr)[:30], badr.get("l"), y, flow.render_path(f, bad)))
+    ctx.floor(rid, n, 25, "members reading the matrix of an operand")
+
+
 def run(ctx):
     ctx.explanation = ("C04 canonical-form protocol on BD_Shape<mpq_class> / Octagonal_Shape<mpq_class>: flag typestate over CFG paths; "
                        "decides the protocol clause (answers cannot depend on whether an operand happens to be closed/reduced), not the closure arithmetic")
@@ -699,3 +754,4 @@ def run(ctx):
     r4_8(ctx)
     r4_9(ctx, fx)
     r4_10(ctx)
+    r4_11(ctx, fx)
